@@ -236,7 +236,7 @@ func firstLine(s string) string {
 func init() {
 	Register(&Prop{
 		ID:    "C02",
-		Rule:  "one execution = one (skeleton, mode, ≤k focus units each ranging over its full configuration×input alphabet — tests {t2 | t1,t2 | none | t1 filed by IssuePath under one path shared by all such nodes, t2} —, field visit order at every struct visit) case; all other units are plain (optional, one passing recording test, valid input); non-trivial = at least one unit deviates from plain; distinct = distinct (skeleton, mode, expected issue multiset). plus " + callsRule,
+		Rule:  "one execution = one (skeleton, mode, ≤k focus units each ranging over its full configuration×input alphabet — tests {t2 | t1,t2 with t2 declared as an edited copy of a reusable z.Test value | none | t1 filed by IssuePath under one path shared by all such nodes, t2} —, field visit order at every struct visit) case; all other units are plain (optional, one passing recording test, valid input); non-trivial = at least one unit deviates from plain; distinct = distinct (skeleton, mode, expected issue multiset). plus " + callsRule,
 		Floor: 50,
 		Bound: func(tier string) string {
 			k, e := coreK(tier)
